@@ -366,6 +366,8 @@ pub struct IsoCfg {
     pub prop: String,
     pub tier: String,
     pub seed: u64,
+    /// index range [start, total)
+    pub start: u64,
     pub total: u64,
     pub workers: usize,
     pub cpu_kill_s: f64,
@@ -627,8 +629,9 @@ pub fn run_isolated(cfg: &IsoCfg) -> IsoResult {
     let res = Mutex::new(IsoResult::default());
     let n = cfg.workers.max(1) as u64;
     // many small segments so that workers stay busy: 4 segments per worker
-    let segs = (n * 4).min(cfg.total.max(1));
-    let per = cfg.total.div_ceil(segs);
+    let span = cfg.total.saturating_sub(cfg.start);
+    let segs = (n * 4).min(span.max(1));
+    let per = span.div_ceil(segs).max(1);
     let next = AtomicUsize::new(0);
     std::thread::scope(|s| {
         for _w in 0..n {
@@ -637,8 +640,8 @@ pub fn run_isolated(cfg: &IsoCfg) -> IsoResult {
                 if k >= segs {
                     break;
                 }
-                let from = k * per;
-                let to = ((k + 1) * per).min(cfg.total);
+                let from = cfg.start + k * per;
+                let to = (cfg.start + (k + 1) * per).min(cfg.total);
                 if from >= to {
                     continue;
                 }
